@@ -202,6 +202,7 @@ Inductive clause :=
 | ServerName | ServerAddr
 | TryUnknown
 | ForcedUnknown
+| ForcedCaseDup                                      (* not in the code today: see spec_validate *)
 | CompressionLevel | CompressionThreshold
 | BedBFNoServers | BedBFBadName | BedBFDuplicate      (* "bedrock: ..." from the top level *)
 (* warnings that sit next to an error boundary *)
@@ -324,29 +325,50 @@ Definition v_level (c : cfg) : list clause :=
 Definition v_threshold (c : cfg) : list clause :=
   if (threshold c <? -1)%Z then [CompressionThreshold] else [].
 
-Definition v_classic (c : cfg) : list clause :=
-  v_via c ++ v_fwd c ++ flat_map v_server (servers c) ++ v_try c ++ v_forced c ++ v_level c ++ v_threshold c.
+(* The loader lower-cases forcedHosts keys (gate.go finishConfigCandidate) and matching is documented as
+   case-insensitive, so two keys that differ only in letter case cannot both be honoured: the loader keeps one of
+   them, chosen by Go's random map iteration order.  The code has no check for this (finding C37-2); the
+   specification has. *)
+Fixpoint nodup_str (l : list str) : bool :=
+  match l with [] => true | x :: r => negb (mem_str x r) && nodup_str r end.
+Definition forced_keys (c : cfg) : list str := map lower_ascii (map fst (forced c)).
+Definition forced_collision (c : cfg) : bool := negb (nodup_str (forced_keys c)).
+(* one error per key whose lower-cased form was seen before *)
+Fixpoint dup_loop (seen l : list str) : list clause :=
+  match l with
+  | [] => []
+  | k :: r => if mem_str k seen then ForcedCaseDup :: dup_loop seen r else dup_loop (k :: seen) r
+  end.
+Definition v_forced_dup (check : bool) (c : cfg) : list clause :=
+  if check then dup_loop [] (forced_keys c) else [].
+
+Definition v_classic (dupcheck : bool) (c : cfg) : list clause :=
+  v_via c ++ v_fwd c ++ flat_map v_server (servers c) ++ v_try c ++ v_forced c ++ v_forced_dup dupcheck c
+  ++ v_level c ++ v_threshold c.
 
 (* java Config.Validate: errors, in order *)
-Definition java_validate (ops_bad : N -> bool) (c : cfg) : list clause :=
+Definition java_validate (ops_bad : N -> bool) (dupcheck : bool) (c : cfg) : list clause :=
   v_bind c ++ v_quota ops_bad (q_conn c) ++ v_quota ops_bad (q_login c) ++ v_trusted c ++ v_bf c
-  ++ (if lite_enabled c then v_lite c else v_classic c).
+  ++ (if lite_enabled c then v_lite c else v_classic dupcheck c).
 
 (* gate/config Config.Validate: health bind, java (prefixed), bedrock (prefixed) ; API disabled *)
-Definition gen_validate (ops_bad : N -> bool) (c : cfg) : list clause :=
+Definition gen_validate (ops_bad : N -> bool) (dupcheck : bool) (c : cfg) : list clause :=
   (if health_enabled c then (if valid_host_port (health_bind c) then [] else [HealthBind]) else [])
-  ++ java_validate ops_bad c ++ v_bedrock c.
+  ++ java_validate ops_bad dupcheck c ++ v_bedrock c.
 
 (* the code as it is: `quota.OPS <= 0` — false for NaN, so NaN passes (finding C37-1) *)
-Definition impl_validate := gen_validate f32_le_zero.
-(* what the message documents: "use a number > 0" *)
-Definition spec_validate := gen_validate (fun b => negb (f32_gt_zero b)).
+Definition impl_validate := gen_validate f32_le_zero false.
+(* what the message documents: "use a number > 0"; and forced-host keys distinct ignoring case *)
+Definition spec_validate := gen_validate (fun b => negb (f32_gt_zero b)) true.
 
 Definition validate := spec_validate.
 
 (* trigger of finding C37-1: an enabled quota whose ops is NaN *)
 Definition nan_quota (c : cfg) : bool :=
   (q_enabled (q_conn c) && f32_is_nan (q_ops (q_conn c))) || (q_enabled (q_login c) && f32_is_nan (q_ops (q_login c))).
+
+(* trigger of finding C37-2: classic mode, two forced-host keys equal ignoring case *)
+Definition forced_dup_trigger (c : cfg) : bool := negb (lite_enabled c) && forced_collision c.
 
 (* the modelled warnings (classic mode only; Lite returns before them) *)
 Definition warnings (c : cfg) : list clause :=
@@ -367,6 +389,7 @@ Definition clause_eqb (a b : clause) : bool :=
   | LiteNoRoutes, LiteNoRoutes
   | ViaMode, ViaMode | ViaBind, ViaBind | ForwardingMode, ForwardingMode
   | ServerName, ServerName | ServerAddr, ServerAddr | TryUnknown, TryUnknown | ForcedUnknown, ForcedUnknown
+  | ForcedCaseDup, ForcedCaseDup
   | CompressionLevel, CompressionLevel | CompressionThreshold, CompressionThreshold
   | BedBFNoServers, BedBFNoServers | BedBFBadName, BedBFBadName | BedBFDuplicate, BedBFDuplicate
   | WForwardingNone, WForwardingNone | WNoServers, WNoServers | WLevelZero, WLevelZero | WThresholdZero, WThresholdZero
